@@ -430,7 +430,10 @@ var c06Junk = [][]byte{[]byte("\xff"), []byte("\x00"), []byte("\xc3"), []byte("Ã
 
 func mutateBytes(t *rapid.T, sample []byte) ([]byte, string) {
 	b := append([]byte(nil), sample...)
-	switch rapid.IntRange(0, 8).Draw(t, "mutk") {
+	switch rapid.IntRange(0, 9).Draw(t, "mutk") {
+	case 9:
+		// a byte-order mark in front: ordinary input for every entry point alike
+		return append([]byte("\ufeff"), b...), "mutated"
 	case 0:
 		return b, "sample"
 	case 1:
